@@ -291,25 +291,30 @@ def items(trees):
 
     def getmass():
         fn = find_def(kr, "Kroupa._getmass")
-        env = {"x": "x", "slope": "slope", "xmin": "xmin", "xmax": "xmax"}
-        tx = Tx(env)
-        for st in fn.body:
-            if isinstance(st, ast.Expr) and isinstance(st.value, ast.Constant):
-                continue
-            if isinstance(st, ast.If):
-                if not (len(st.body) == 1 and len(st.orelse) == 1 and isinstance(st.body[0], ast.Assign)
-                        and isinstance(st.orelse[0], ast.Assign)
-                        and target_str(st.body[0].targets[0]) == target_str(st.orelse[0].targets[0])):
-                    raise Unsupported("_getmass: unexpected if")
-                env[target_str(st.body[0].targets[0])] = \
-                    f"(if {tx.cond(st.test)} then {tx(st.body[0].value)} else {tx(st.orelse[0].value)})"
-            elif isinstance(st, ast.Assign):
-                env[target_str(st.targets[0])] = tx(st.value)
-            elif isinstance(st, ast.Return):
-                return tx(st.value)
-            else:
-                raise Unsupported(f"_getmass: statement {type(st).__name__}")
-        raise Unsupported("_getmass: no return")
+        env0 = {"x": "x", "slope": "slope", "xmin": "xmin", "xmax": "xmax"}
+
+        def block(stmts, env):
+            """translate a statement list ending in a return into one expression (assignments are inlined)"""
+            env = dict(env)
+            tx = Tx(env)
+            for k, st in enumerate(stmts):
+                if isinstance(st, ast.Expr) and isinstance(st.value, ast.Constant):
+                    continue
+                if isinstance(st, ast.Assign):
+                    env[target_str(st.targets[0])] = tx(st.value)
+                elif isinstance(st, ast.Return):
+                    return tx(st.value)
+                elif isinstance(st, ast.If):
+                    rest = stmts[k + 1:]
+                    then_ret = any(isinstance(x, ast.Return) for x in st.body)
+                    else_ret = any(isinstance(x, ast.Return) for x in st.orelse)
+                    a = block(list(st.body) + ([] if then_ret else rest), env)
+                    b = block(list(st.orelse) + ([] if else_ret else rest), env)
+                    return f"(if {tx.cond(st.test)} then {a} else {b})"
+                else:
+                    raise Unsupported(f"_getmass: statement {type(st).__name__}")
+            raise Unsupported("_getmass: no return")
+        return block(fn.body, env0)
     add("kroupa_getmass", "x slope xmin xmax", getmass)
     return out
 
